@@ -1,5 +1,8 @@
 pub mod c07;
+pub mod c09;
+pub mod c14;
 pub mod c19;
+pub mod c20;
 pub mod scen;
 
 use crate::model::Violation;
@@ -13,7 +16,10 @@ pub fn run(ctx: &Ctx) -> i32 {
     }
     match ctx.prop {
         "C07" => return c07::run(ctx),
+        "C09" => return c09::run(ctx),
+        "C14" => return c14::run(ctx),
         "C19" => return c19::run(ctx),
+        "C20" => return c20::run(ctx),
         _ => {}
     }
     eprintln!("no check registered for {}", ctx.prop);
@@ -27,9 +33,21 @@ pub fn replay(_ctx: &Ctx, kind: &str, input: &Value) -> Result<Vec<Violation>, S
             let case: crate::scenario::Case = serde_json::from_value(input.clone()).map_err(|e| e.to_string())?;
             Ok(scen::replay(&case))
         }
+        "case-c09" => {
+            let case: crate::scenario::Case = serde_json::from_value(input.clone()).map_err(|e| e.to_string())?;
+            Ok(c09::replay(&case))
+        }
+        "case-c14" => {
+            let case: crate::scenario::Case = serde_json::from_value(input.clone()).map_err(|e| e.to_string())?;
+            Ok(c14::replay(&case))
+        }
         "c19-cell" => {
             let cell: c19::Cell = serde_json::from_value(input.clone()).map_err(|e| e.to_string())?;
             Ok(c19::replay(&cell))
+        }
+        "c20-input" => {
+            let inp: c20::Input = serde_json::from_value(input.clone()).map_err(|e| e.to_string())?;
+            Ok(c20::replay(&inp))
         }
         other => Err(format!("unknown replay kind {other}")),
     }
